@@ -81,7 +81,7 @@ def labels(ctx, spec, blocks, strand, variants):
 def parent_of(spec):
     g = spec["genome"]
     if spec.get("chunk"):
-        return chunk_parent(g, spec["chunk"][0], spec["chunk"][1]), spec["chunk"][0], g[spec["chunk"][0]:spec["chunk"][1]]
+        return chunk_parent(g, spec["chunk"][0], spec["chunk"][1], idiom=spec.get("chunk_idiom", "api")), spec["chunk"][0], g[spec["chunk"][0]:spec["chunk"][1]]
     return chrom_parent(g), 0, g
 
 
@@ -365,6 +365,7 @@ def strat_lift(draw, tier="quick"):
         vlo = min(v["start"] for v in variants)
         vhi = max(v["end"] for v in variants)
         sp["chunk"] = [draw(st.integers(0, min(lo, vlo))), draw(st.integers(max(hi, vhi), n))]
+        sp["chunk_idiom"] = draw(st.sampled_from(["api", "api", "docstring"]))
     else:
         sp["preused"] = draw(st.sampled_from([None, None, "other_reference", "sequence_less"]))
     return sp
@@ -396,6 +397,7 @@ def strat_incorporate(draw, tier="quick"):
         vlo = min(v["start"] for v in variants)
         vhi = max(v["end"] for v in variants)
         sp["chunk"] = [draw(st.integers(0, min(lo, vlo))), draw(st.integers(max(hi, vhi), n))]
+        sp["chunk_idiom"] = draw(st.sampled_from(["api", "api", "docstring"]))
     else:
         sp["preused"] = draw(st.sampled_from([None, None, "other_reference", "sequence_less"]))
     return sp
